@@ -126,8 +126,10 @@ func (it *Iterator) Seek(target []byte) bool {
 
 	// Binary search through restart points
 	left, right := 0, len(it.reader.restartPoints)-1
+	// Find the last restart point whose key is <= target: the first entry
+	// >= target is inside that restart interval (or at the start of the next)
 	for left < right {
-		mid := (left + right) / 2
+		mid := (left + right + 1) / 2
 		it.restartIdx = mid
 		it.currentPos = it.reader.restartPoints[mid]
 
@@ -136,10 +138,10 @@ func (it *Iterator) Seek(target []byte) bool {
 			return false
 		}
 
-		if bytes.Compare(key, target) < 0 {
-			left = mid + 1
+		if bytes.Compare(key, target) <= 0 {
+			left = mid
 		} else {
-			right = mid
+			right = mid - 1
 		}
 	}
 
@@ -174,6 +176,9 @@ func (it *Iterator) Seek(target []byte) bool {
 				it.currentVal = val
 				return true
 			}
+			// No entry >= target in this block: do not stay valid on a smaller key
+			it.currentKey = nil
+			it.currentVal = nil
 			return false
 		}
 
@@ -187,6 +192,27 @@ func (it *Iterator) Seek(target []byte) bool {
 		it.currentKey = key
 		it.currentVal = val
 	}
+}
+
+// SeekFloor positions the iterator at the last entry with a key <= target, or
+// at the first entry if every key is greater. An index block maps the first
+// key of each data block to its location, so this is the block that can
+// contain target.
+func (it *Iterator) SeekFloor(target []byte) bool {
+	it.SeekToFirst()
+	n := 0
+	for it.Valid() && bytes.Compare(it.currentKey, target) <= 0 {
+		n++
+		if !it.Next() {
+			break
+		}
+	}
+
+	it.SeekToFirst()
+	for i := 1; i < n; i++ {
+		it.Next()
+	}
+	return it.Valid()
 }
 
 // Next advances the iterator to the next entry
@@ -295,6 +321,13 @@ func (it *Iterator) decodeCurrent() ([]byte, []byte, bool) {
 	it.currentKey = key
 	it.currentVal = value
 	it.currentSeqNum = seqNum
+
+	// Leave currentPos just past this entry so that a following decodeNext
+	// yields the next entry instead of decoding this one a second time
+	it.currentPos = uint32(len(it.reader.data) - len(data))
+	if valueLen != TombstoneValueLengthMarker {
+		it.currentPos += valueLen
+	}
 
 	return key, value, true
 }
